@@ -18,6 +18,13 @@ REDUCTIONS = {"numpy.max", "numpy.min", "numpy.sum", "numpy.mean", "numpy.argmax
               "numpy.maximum.accumulate", "numpy.any", "numpy.all"}
 
 
+SHAPE_QUERIES = {"numpy.shape", "numpy.ndim", "numpy.size", "numpy.isscalar", "numpy.result_type", "numpy.dtype"}
+ROW_ASSEMBLY = {"numpy.vstack", "numpy.concatenate", "numpy.stack", "numpy.append"}
+MIXING = {"numpy.flip", "numpy.flipud", "numpy.roll", "numpy.searchsorted", "numpy.unique", "numpy.interp", "numpy.convolve", "numpy.dot",
+          "numpy.matmul", "numpy.outer", "numpy.take", "numpy.put", "numpy.delete", "numpy.insert", "numpy.trapezoid", "numpy.gradient",
+          "numpy.ediff1d", "numpy.cumprod", "numpy.percentile", "numpy.linalg.norm", "numpy.fft.fft", "numpy.fft.ifft"}
+
+
 def periods_av(positive=True):
     return AV(kind=K_ARRAY, dtype="real", shape=(LinExpr("P"),), sign=S_POS if positive else S_NONNEG,
               alg={T: HOM(1, "even")}, origin=frozenset(["p:periods"]), tags=frozenset(["p:periods"]))
@@ -296,10 +303,19 @@ def elementwise_rules(chk, r, q):
                 ok = k is not None and arr.shape is not None and len(arr.shape) == 2 and k in (1, -1)
                 chk.ob("R-ELEMWISE", site, "reduction over the time axis only (axis=1 of periods x time)", ok,
                        derived="%s axis=%r on shape %r" % (name, k, arr.shape), loc=e.loc, stmt=e.stmt)
+            elif name in SHAPE_QUERIES:
+                chk.ob("R-ELEMWISE", site, "a shape query does not touch the data", True, derived=name, loc=e.loc, stmt=e.stmt, nontrivial=False)
+            elif name in ROW_ASSEMBLY:
+                # rows (one per period, or the rigid T=0 row) stacked along the period axis: each period's row is handed on untouched
+                ax = e.kwargs.get("axis")
+                k = 0 if name.endswith("vstack") else (ax.const if (ax is not None and ax.has_const()) else (0 if ax is None else None))
+                chk.ob("R-ELEMWISE", site, "rows are assembled along the period axis (axis 0)", k == 0, derived="%s along axis %r" % (name, k),
+                       loc=e.loc, stmt=e.stmt)
             else:
+                # known to mix entries of different periods -> refuted; a call this table does not know -> inconclusive
                 chk.ob("R-ELEMWISE", site, "element-wise call on period-indexed data", False,
-                       derived="%s is not in the element-wise table" % name, loc=e.loc, stmt=e.stmt,
-                       inconclusive=name not in __import__("sa.api", fromlist=["LIB"]).LIB)
+                       derived="%s %s" % (name, "mixes entries along its axis" if name in MIXING else "is not in the element-wise table"),
+                       loc=e.loc, stmt=e.stmt, inconclusive=name not in MIXING)
         elif e.kind == "subscript":
             b = e.base
             if "p:periods" not in b.tags or b.kind not in (K_ARRAY,) or b.shape is None or len(b.shape) < 1:
